@@ -180,12 +180,19 @@ class RunInterp(JsonMixin, DatetimeMixin, Interp):
         self.repo = repo
         self.max_depth = 400
         self.max_while = 100000
+        self.concrete_parse = True        # included scripts are parsed for real (parse_expression evaluated on the concrete text)
         self.logs = []
+
+    files = {}
 
     def call_value_hook(self, fn, args, e):
         if isinstance(fn, Sym) and fn.kind == 'hostfn' and fn.args[0] == 'log':
             self.logs.append(args[0] if args else None)
             return None
+        if isinstance(fn, Sym) and fn.kind == 'hostfn' and fn.args[0] == 'fetch':
+            req = args[0] if args else None
+            url = req.d.get('url') if isinstance(req, ADict) else req
+            return self.files.get(url)
         return super().call_value_hook(fn, args, e)
 
 
@@ -258,6 +265,7 @@ class Subject:
         if m[0] == 'raise':
             return ('parse-error', f'{m[1]}{m[2]!r}', [], {}, None)
         it = RunInterp(self.repo, self.rmod, self.rule)
+        it.files = INCLUDE_FILES
         it.globals['SCRIPT_FUNCTIONS'] = ADict(dict(self.library))
         it.sub_interp(self.repo.module('library')).globals['SCRIPT_FUNCTIONS'] = it.globals['SCRIPT_FUNCTIONS']
         G = ADict({k: to_abs(v) for k, v in init_globals.items()})
@@ -266,7 +274,7 @@ class Subject:
             opts.d['globals'] = G
             opts.d['maxStatements'] = max_statements
         else:
-            opts = ADict({'globals': G, 'logFn': Sym('hostfn', 'log'), 'maxStatements': max_statements})
+            opts = ADict({'globals': G, 'logFn': Sym('hostfn', 'log'), 'maxStatements': max_statements, 'fetchFn': Sym('hostfn', 'fetch')})
         if options:
             opts.d.update(options)
         try:
@@ -902,7 +910,32 @@ def _copy(v):
 
 
 # ------------------------------------------------------------------------------------------------ statement budget (C09)
+INCLUDE_FILES = {
+    'inc.bare': "systemLog('inc 1')\nfunction incf(x):\n    systemLog('incf ' + x)\n    return x\nendfunction\nsystemLog('inc 2')\n",
+    'nested.bare': "systemLog('nested 1')\ninclude 'inc.bare'\nsystemLog('nested 2')\n",
+}
+
 BUDGET_EXTRA = [
+    ('a single include statement', "include 'inc.bare'\n"),
+    ('nested includes and a function defined by the include', "systemLog('a')\ninclude 'nested.bare'\nincf(1)\nsystemLog('z')\n"),
+    ('script functions called in loop and branch conditions', '''
+function f(n):
+    systemLog('f ' + n)
+    return n
+endfunction
+k = 0
+while f(k) < 3:
+    k = k + 1
+    if f(1):
+        systemLog('t')
+    endif
+    systemLog('k ' + k)
+endwhile
+if f(0) || f(2):
+    systemLog('or')
+endif
+systemLog('end')
+'''),
     ('callbacks from library functions', '''
 function cmp(a, b):
     systemLog('cmp')
@@ -1029,11 +1062,11 @@ def run_budget(repo, tier='quick', rule='E9r'):
                     problems.append((desc, f'program "{desc}" under the limit {L}: aborted with statementCount = {cnt}; the abort happens exactly when statement {L + 1} would start'))
                     break
     # one options object reused for several runs: each run starts its own count, whatever way the previous run ended (completed, runtime error, limit abort)
-    first = [('a run that completes', BUDGET_EXTRA[2][1], 0), ('a run that ends with a runtime error', "x = 1\nsystemLog('a')\nfunction f(n):\n    return nope(n)\nendfunction\nf(1)\n", 0),
+    first = [('a run that completes', BUDGET_EXTRA[5][1], 0), ('a run that ends with a runtime error', "x = 1\nsystemLog('a')\nfunction f(n):\n    return nope(n)\nendfunction\nf(1)\n", 0),
              ('a run that ends with a runtime error inside nested calls', "function a(n):\n    return b(n)\nendfunction\nfunction b(n):\n    return missing(n)\nendfunction\na(1)\n", 0),
-             ('a run aborted by the limit', BUDGET_EXTRA[1][1], 7)]
+             ('a run aborted by the limit', BUDGET_EXTRA[4][1], 7)]
     for fdesc, ftext, flimit in first:
-        for desc, text in (BUDGET_EXTRA[2], BUDGET_EXTRA[1]):
+        for desc, text in (BUDGET_EXTRA[5], BUDGET_EXTRA[4]):
             fresh = subj.run(text, {}, max_statements=0)
             r1 = subj.run(ftext, {}, max_statements=flimit)
             r2 = subj.run(text, {}, max_statements=0, reuse=r1[4])
